@@ -268,6 +268,9 @@ def run(ctx: Ctx) -> None:
     probe_grid_meter_load(ctx)
     probe_battery_shared_across_meters(ctx)
 
+    from . import datapath  # full-stack stage: the same property through the real sourcing -> resampling -> formula stack
+    datapath.run_stage(ctx, {"C12-balance"}, n_quick=40, n_thorough=600)
+
 
 def probe_battery_shared_across_meters(ctx: Ctx) -> None:
     """Evidence only (outside the quantifier as read here: batteries are shared only behind one predecessor).  A battery
